@@ -9,15 +9,16 @@ History. On the tree as first examined the property failed in five ways: (i) anc
 (ii) `anywhere` adapters on reads inside the adapter, (iii) 5' windows read past the end of short reads, (iv) NUL bytes in the
 read against `N` wildcards, (v) regular adapters that allow two or more errors. (i), (v) were repaired by 8c49284 (every
 overlap window is widened by the errors allowed at its level when indels are on), (iii) by d940092 (`stop` clamped); the model
-follows the repaired code. (ii) and (iv) remain (known findings): `prefilter_unsafe_witness`, `prefilter_not_safe`.
+follows the repaired code. (ii) was repaired by the `ShortReadsPassKmerFinder` wrapper (adapters whose finder searches both
+overlap directions do not show reads shorter than `|adapter| + ⌊rate·|adapter|⌋` to the finder): `anywhere_short_read_repaired`.
+(iv) remains (known finding): `prefilter_unsafe_witness`, `prefilter_not_safe`.
 
 Proved: the bit-parallel search is exact (`shift_and_correct`, `shift_and_correct_entry`, `kmers_present_spec`), the verdict
 does not depend on memory behind the read (`kmers_present_ignores_beyond`), `kmer_chunks` meets its specification, the
 pigeonhole argument, absence of the `NotImplementedError` path, every overlap level is safe on its own
-(`overlap_level_safe`), and **`prefilter_safe_partial`: on the decidable domain `Kmer.safeDomain a read` — the read is ASCII
-without NUL, and not (both overlap directions searched ∧ |read| < |adapter| + ⌊rate·|adapter|⌋) — `match_to` with the
-prefilter equals the aligner alone, for all eight adapter classes, all reads, any number of errors and indels.** The check
-evaluates `safeDomain` on every oracle failure: all lie outside. -/
+(`overlap_level_safe`), and **`prefilter_safe_partial`: for every ASCII read without NUL bytes (`Kmer.asciiNoNul`) `match_to`
+with the prefilter equals the aligner alone, for all eight adapter classes (and `;anywhere`), reads of every length, any number
+of errors and indels.** The check evaluates `asciiNoNul` on every oracle failure: all lie outside. -/
 namespace Cutadapt.C07
 open Cutadapt Cutadapt.Spec Cutadapt.Kmer Cutadapt.Adapters Cutadapt.Align Cutadapt.Generated
 
@@ -204,14 +205,18 @@ def w4 : Adapter := mkA .back [78, 65, 67, 71, 84, 65, 67, 71, 84] (fun _ => 0) 
 /-- `TTTT\0ACGTACGTGGGGGGGGGG` -/
 def r4 : Bytes := [84, 84, 84, 84, 0, 65, 67, 71, 84, 65, 67, 71, 84, 71, 71, 71, 71, 71, 71, 71, 71, 71, 71]
 
-/-- **Counterexamples that remain** (known findings; each replayed against the real code by the check):
-    (ii) `anywhere` adapter `TTGT`, read `G` lying strictly inside the adapter: exact match of `adapter[2:3]`, prefilter says no;
+/-- **Counterexample that remains** (known finding; replayed against the real code by the check):
     (iv) a NUL byte in the read matches the adapter's `N` wildcard in the aligner but nothing in the finder's tables
-        (`matches_lookup` drops `\0`): regular 3' adapter `NACGTACGT`, read `TTTT\0ACGTACGTGGGGGGGGGG`.
-    Both lie outside `safeDomain`. -/
+        (`matches_lookup` drops `\0`): regular 3' adapter `NACGTACGT`, read `TTTT\0ACGTACGTGGGGGGGGGG`. It lies outside `asciiNoNul`. -/
 theorem prefilter_unsafe_witness :
-    (matchTo w2 [71] = some ⟨2, 3, 0, 1, 1, 0, true⟩ ∧ matchToFiltered w2 [71] [] = none ∧ safeDomain w2 [71] = false) ∧
-    (matchTo w4 r4 = some ⟨0, 9, 4, 13, 9, 0, false⟩ ∧ matchToFiltered w4 r4 [] = none ∧ safeDomain w4 r4 = false) := by
+    matchTo w4 r4 = some ⟨0, 9, 4, 13, 9, 0, false⟩ ∧ matchToFiltered w4 r4 [] = none ∧ asciiNoNul r4 = false := by
+  decide +kernel
+
+/-- former counterexample (ii): `anywhere` adapter `TTGT`, read `G` lying strictly inside the adapter — the k-mer finder alone
+    still says no, but the read is shorter than `|adapter| + ⌊rate·|adapter|⌋ = 4` and bypasses it: the match is reported -/
+theorem anywhere_short_read_repaired :
+    kmersPresent (finderFor w2) [71] [] = false ∧ shortReadPasses w2 [71] = true ∧
+    matchToFiltered w2 [71] [] = some ⟨2, 3, 0, 1, 1, 0, true⟩ ∧ matchTo w2 [71] = some ⟨2, 3, 0, 1, 1, 0, true⟩ := by
   decide +kernel
 
 theorem w2_ok : AdapterOK w2 where
@@ -224,11 +229,21 @@ theorem w2_ok : AdapterOK w2 where
   anchored := by decide
   noindel_len := by decide
 
-/-- the property as stated does not hold for the code as it is -/
+theorem w4_ok : AdapterOK w4 where
+  seq_ok := by decide +kernel
+  thr_ok := ⟨by decide, by intro x y h; simp only [w4, mkA]; omega, by intro x; simp only [w4, mkA]; omega,
+             by intro L h; simp only [w4, mkA]; omega⟩
+  seq_ne := by decide
+  overlap_pos := by decide
+  overlap_le := by decide
+  anchored := by decide
+  noindel_len := by decide
+
+/-- the property as stated (every ASCII read, NUL included) does not hold for the code as it is -/
 theorem prefilter_not_safe : ¬ prefilter_safe_statement := by
   intro h
-  have h1 := h w2 w2_ok [71] [] (by unfold ReadOK; decide +kernel)
-  have h2 := prefilter_unsafe_witness.1
+  have h1 := h w4 w4_ok r4 [] (by unfold ReadOK; decide +kernel)
+  have h2 := prefilter_unsafe_witness
   rw [h2.1, h2.2.1] at h1
   cases h1
 
@@ -240,17 +255,20 @@ theorem prefilter_only_removes (a : Adapter) (read beyond : Bytes) :
   · exact Or.inl rfl
   · exact Or.inr rfl
 
-/-- **The property on its safe domain** (repaired tables). For every adapter with error rate below 1 (`AdapterOK`) and every
-    read with `Kmer.safeDomain a read = true` — ASCII without NUL, and not (the finder searches both overlap directions and
-    `|read| < |adapter| + ⌊rate·|adapter|⌋`) — `match_to` with the prefilter reports exactly what the aligner alone reports:
+/-- **The property for every read without NUL bytes.** For every adapter with error rate below 1 (`AdapterOK`) and every
+    ASCII read without NUL (`Kmer.asciiNoNul read = true`) — of any length, also shorter than the adapter —
+    `match_to` with the prefilter reports exactly what the aligner alone reports:
     all eight adapter classes (and `;anywhere`), matches of any placement, any number of errors and indels, whatever lies
     behind the read in memory. The soundness of `Aligner.locate` (C01: `Cutadapt.Align.locate_sound`) enters as the hypothesis
     `hsound`, which has the shape of that theorem (`Cutadapt/Proofs/KmerCompose.lean` discharges it). -/
 theorem prefilter_safe_partial (a : Adapter) (hok : AdapterOK a)
     (hsound : LocateSound (alignerCfg a (flagsOf a)) a.seq.length) (read beyond : Bytes)
-    (hdom : safeDomain a read = true) : matchToFiltered a read beyond = matchTo a read :=
-  matchToFiltered_eq_of_safeDomain a ⟨hok.thr_ok, hok.overlap_pos, hok.noindel_len⟩
+    (hdom : asciiNoNul read = true) : matchToFiltered a read beyond = matchTo a read :=
+  matchToFiltered_eq_of_ascii a ⟨hok.thr_ok, hok.overlap_pos, hok.noindel_len⟩
     (fun c hc => ⟨(hok.seq_ok c hc).1, (hok.seq_ok c hc).2.2⟩) hok.seq_ne hsound read beyond hdom
+
+/-- the premises are satisfiable, also by a read shorter than an `anywhere` adapter -/
+example : AdapterOK w2 ∧ asciiNoNul [71] = true := ⟨w2_ok, by decide⟩
 
 /-! ### regression examples: the reproducers of the repaired classes (i), (iii), (v) on the model of the repaired code -/
 
@@ -268,8 +286,8 @@ example : matchToFiltered
     [84, 67, 65, 65, 65, 65, 84, 67, 65, 71, 84, 84, 65, 67, 65, 65, 84, 71, 84, 71] []
     = some ⟨0, 18, 0, 20, 14, 2, false⟩ := by decide +kernel
 
-/-- `safeDomain` for an `anywhere` adapter: reads shorter than `|adapter| + ⌊rate·|adapter|⌋` are outside -/
-example : safeDomain w2 [84, 84, 71] = false ∧ safeDomain w2 [84, 84, 71, 84] = true ∧
-    safeDomain (mkA .back [84, 84, 71, 84] (· / 5) 1 false) [71] = true := by decide +kernel
+/-- which reads bypass the finder: for an `anywhere` adapter those shorter than `|adapter| + ⌊rate·|adapter|⌋`; none for a 3' adapter -/
+example : shortReadPasses w2 [84, 84, 71] = true ∧ shortReadPasses w2 [84, 84, 71, 84] = false ∧
+    shortReadPasses (mkA .back [84, 84, 71, 84] (· / 5) 1 false) [71] = false := by decide +kernel
 
 end Cutadapt.C07
